@@ -52,6 +52,8 @@ struct Def {
 struct Module {
     imports: Vec<Import>,
     defs: Vec<Def>,
+    /// 0 fine, 1 the body does not compile (an undefined name), 2 the top level raises right after its tag
+    fault: u8,
 }
 #[derive(Clone, Debug, PartialEq, Eq, PartialOrd, Ord)]
 enum Sp {
@@ -147,7 +149,7 @@ fn spell(sp: &Sp) -> String {
     }
 }
 
-fn source_of(idx: usize, path: &[Id], m: &Module, probe: Option<&Sp>) -> String {
+fn source_of(idx: usize, path: &[Id], m: &Module, probe: Option<&Sp>, state: bool) -> String {
     let mut s = String::new();
     s.push_str("needs std.io\n");
     for i in &m.imports {
@@ -165,6 +167,12 @@ fn source_of(idx: usize, path: &[Id], m: &Module, probe: Option<&Sp>) -> String 
         }
     }
     writeln!(s, "io.println(\"I:{}\")", fid(path)).unwrap();
+    if m.fault == 1 {
+        // used, so that no optimisation level drops it before name resolution
+        s.push_str("io.println(nosuchname_xyz)\n");
+    } else if m.fault == 2 {
+        writeln!(s, "fn zz_boom{}(x) {{ return 1 / x }}\nio.println(zz_boom{}(0))", idx, idx).unwrap();
+    }
     for d in &m.defs {
         let v = format!("V:{}:{}", fid(path), nm(d.name));
         let p = if d.is_pub { "pub " } else { "" };
@@ -178,11 +186,20 @@ fn source_of(idx: usize, path: &[Id], m: &Module, probe: Option<&Sp>) -> String 
             }
         }
     }
+    if state {
+        // mutable pub state (sessions): a counter only the module's own function advances; names are unique per file
+        writeln!(s, "pub let mut zc{} = 0\npub fn zb{}() {{\n    zc{} = zc{} + 1\n    return zc{}\n}}", idx, idx, idx, idx, idx).unwrap();
+    }
     if let Some(sp) = probe {
         s.push_str("io.println(\"P\")\n");
         writeln!(s, "io.println({})", spell(sp)).unwrap();
     }
     s
+}
+
+/// sessions over plain trees (no symlinks, no manifest): every module carries mutable pub state
+fn has_state(c: &Case) -> bool {
+    !c.inputs.is_empty() && c.links.is_empty() && c.hints.is_empty()
 }
 
 fn file_on_disk(root: &Path, path: &[Id]) -> PathBuf {
@@ -205,7 +222,7 @@ fn materialise(root: &Path, c: &Case, probe: Option<&(Vec<Id>, Sp)>) {
             Some((pf, sp)) if pf == path => Some(sp),
             _ => None,
         };
-        std::fs::write(&f, source_of(idx, path, m, pr)).unwrap();
+        std::fs::write(&f, source_of(idx, path, m, pr, has_state(c))).unwrap();
     }
     for (src, tgt) in &c.links {
         let is_file = c.files.iter().any(|(p, _)| p == tgt);
@@ -262,11 +279,11 @@ fn classify(r: Result<Result<(), aelys_common::error::AelysError>, String>, out:
                 CompileErrorKind::ModuleNotFound { .. } => 2,
                 CompileErrorKind::SymbolNotFound { .. } => 3,
                 CompileErrorKind::SymbolConflict { .. } => 4,
-                _ => 9,
+                _ => 5,
             };
             (code, out, format!("{}", e).lines().next().unwrap_or("").to_string())
         }
-        Ok(Err(e)) => (9, out, format!("{}", e).lines().next().unwrap_or("").to_string()),
+        Ok(Err(e)) => (6, out, format!("{}", e).lines().next().unwrap_or("").to_string()),
         Err(p) => (10, out, format!("panic: {}", p)),
     }
 }
@@ -280,6 +297,17 @@ struct Obs {
 
 fn trace_of(out: &str) -> Vec<String> {
     out.lines().filter_map(|l| l.strip_prefix("I:").map(|s| s.to_string())).collect()
+}
+/// `B:<file>` followed by the counter value the module's function returned
+fn bump_values(out: &str) -> Vec<String> {
+    let lines: Vec<&str> = out.lines().collect();
+    let mut vals = Vec::new();
+    for (i, l) in lines.iter().enumerate() {
+        if let Some(f) = l.strip_prefix("B:") {
+            vals.push(format!("{}={}", f, lines.get(i + 1).copied().unwrap_or("?")));
+        }
+    }
+    vals
 }
 fn probe_values(out: &str) -> Vec<String> {
     let lines: Vec<&str> = out.lines().collect();
@@ -315,10 +343,10 @@ fn observe(c: &Case, n: usize) -> Obs {
             Some(idx) => {
                 let (path, m) = &c.files[idx];
                 let f = file_on_disk(&root, path);
-                std::fs::write(&f, source_of(idx, path, m, Some(&pr.1))).unwrap();
+                std::fs::write(&f, source_of(idx, path, m, Some(&pr.1), has_state(c))).unwrap();
                 let (_, pout, _) = run_entry(&entry, c.opt);
                 probes.push(probe_values(&pout));
-                std::fs::write(&f, source_of(idx, path, m, None)).unwrap();
+                std::fs::write(&f, source_of(idx, path, m, None, has_state(c))).unwrap();
             }
             None => probes.push(Vec::new()),
         }
@@ -328,7 +356,7 @@ fn observe(c: &Case, n: usize) -> Obs {
 }
 
 // ------------------------------------------------------------------------------------------ REPL sessions
-fn input_source(k: usize, m: &Module, probe: Option<&Sp>) -> String {
+fn input_source(c: &Case, k: usize, m: &Module, probe: Option<&Sp>) -> String {
     let mut s = String::new();
     for i in &m.imports {
         match &i.form {
@@ -339,6 +367,20 @@ fn input_source(k: usize, m: &Module, probe: Option<&Sp>) -> String {
         }
     }
     writeln!(s, "println(\"I:in{}\")", k).unwrap();
+    if has_state(c) {
+        // advance the counter of every module this input imports under a qualifier (the file is the one the
+        // import names: plain trees only), and print its new value
+        for i in &m.imports {
+            let q = match &i.form {
+                Form::Module => *i.path.last().unwrap(),
+                Form::Alias(a) => *a,
+                _ => continue,
+            };
+            if let Some(idx) = c.files.iter().position(|(p, m)| *p == i.path && m.fault == 0) {
+                writeln!(s, "println(\"B:{}\")\nprintln({}.zb{}())", fid(&i.path), nm(q), idx).unwrap();
+            }
+        }
+    }
     if let Some(sp) = probe {
         s.push_str("println(\"P\")\n");
         writeln!(s, "println({})", spell(sp)).unwrap();
@@ -346,7 +388,7 @@ fn input_source(k: usize, m: &Module, probe: Option<&Sp>) -> String {
     s
 }
 
-/// one session on a fresh VM; per input (code, printed output); stops after the first failing input
+/// one session on a fresh VM; per input (code, printed output); failing inputs do not end the session
 #[cfg(vbxq_aelys_lang_verif)]
 fn run_session(c: &Case, probe: Option<&(usize, Sp)>) -> Vec<(u8, String)> {
     use aelys_runtime::verif;
@@ -360,7 +402,7 @@ fn run_session(c: &Case, probe: Option<&(usize, Sp)>) -> Vec<(u8, String)> {
             Some((pk, sp)) if *pk == k => Some(sp),
             _ => None,
         };
-        let src = input_source(k, m, pr);
+        let src = input_source(c, k, m, pr);
         verif::sink_install();
         verif::budget_set(20_000_000);
         let r = guarded(std::panic::AssertUnwindSafe(|| {
@@ -370,15 +412,13 @@ fn run_session(c: &Case, probe: Option<&(usize, Sp)>) -> Vec<(u8, String)> {
         verif::budget_set(u64::MAX);
         let (code, out, _) = classify(r, out);
         res.push((code, out));
-        if code != 0 {
-            break;
-        }
     }
     res
 }
 
 struct SObs {
     inputs: Vec<(u8, Vec<String>)>,
+    bumps: Vec<Vec<String>>,
     probes: Vec<Vec<String>>,
 }
 
@@ -393,6 +433,7 @@ fn observe_session(c: &Case, n: usize) -> SObs {
     std::env::set_current_dir(&root).unwrap();
     let base = run_session(c, None);
     let inputs = base.iter().map(|(code, out)| (*code, trace_of(out))).collect();
+    let bumps = base.iter().map(|(_, out)| bump_values(out)).collect();
     let mut probes = Vec::new();
     for pr in &c.sprobes {
         let r = run_session(c, Some(pr));
@@ -403,16 +444,17 @@ fn observe_session(c: &Case, n: usize) -> SObs {
         let _ = std::env::set_current_dir(b);
     }
     let _ = std::fs::remove_dir_all(&root);
-    SObs { inputs, probes }
+    SObs { inputs, bumps, probes }
 }
 
 fn coq_files(c: &Case) -> String {
     let fs = coq_list(&c.files, |(p, m)| {
         format!(
-            "({}, Build_module {} {})",
+            "({}, Build_module {} {} {})",
             coq_ids(p),
             coq_list(&m.imports, |i| format!("Build_import {} {}", coq_ids(&i.path), coq_form(&i.form))),
-            coq_list(&m.defs, |d| format!("Build_def {} {} {}", d.name, d.is_pub, is_fn(d.name)))
+            coq_list(&m.defs, |d| format!("Build_def {} {} {}", d.name, d.is_pub, is_fn(d.name))),
+            m.fault
         )
     });
     let links = coq_list(&c.links, |(a, b)| format!("({}, {})", coq_ids(a), coq_ids(b)));
@@ -435,7 +477,7 @@ fn coq_squery(c: &Case) -> String {
         "Build_sq {} {} {}",
         coq_files(c),
         coq_list(&c.inputs, |m| format!(
-            "Build_module {} []",
+            "Build_module {} [] 0",
             coq_list(&m.imports, |i| format!("Build_import {} {}", coq_ids(&i.path), coq_form(&i.form)))
         )),
         coq_list(&c.sprobes, |(k, s)| format!("({}%nat, {})", k, coq_sp(s)))
@@ -518,6 +560,9 @@ fn text_of(c: &Case) -> String {
                 Form::Wildcard => write!(s, ";import wildcard {}", path).unwrap(),
             }
         }
+        if m.fault != 0 {
+            write!(s, ";fault {}", m.fault).unwrap();
+        }
         for d in &m.defs {
             write!(s, ";def {} {}", if d.is_pub { "pub" } else { "priv" }, nm(d.name)).unwrap();
         }
@@ -579,6 +624,7 @@ fn parse_case(text: &str) -> Option<Case> {
                 c.inputs.push(Module::default())
             }
             "opt" => c.opt = w.get(1)?.parse().ok()?,
+            "fault" => c.files.last_mut()?.1.fault = w.get(1)?.parse().ok()?,
             "sprobe" => {
                 let k: usize = w.get(1)?.parse().ok()?;
                 let sp = match *w.get(2)? {
@@ -635,7 +681,7 @@ impl B {
         B { files: vec![(vec![ENTRY], Module::default())], links: Vec::new(), hints: Vec::new() }
     }
     fn file(&mut self, path: Vec<Id>, defs: Vec<Def>) -> usize {
-        self.files.push((path, Module { imports: Vec::new(), defs }));
+        self.files.push((path, Module { imports: Vec::new(), defs, fault: 0 }));
         self.files.len() - 1
     }
     fn imp(&mut self, from: usize, path: Vec<Id>, form: Form) {
@@ -1210,6 +1256,11 @@ fn random_case(rng: &mut Rng, n: usize, maxfiles: u64) -> Case {
             }
         }
     }
+    if flavour == 4 && nf > 1 && rng.chance(1, 3) {
+        // a module that does not compile / whose top level raises after its first statement
+        let i = 1 + rng.below((nf - 1) as u64) as usize;
+        b.files[i].1.fault = 1 + rng.below(2) as u8;
+    }
     b.done(&format!("random{}-f{}{}", n, flavour, if respell { "s" } else { "" }))
 }
 
@@ -1251,6 +1302,65 @@ fn session_from(rng: &mut Rng, mut c: Case, n: usize) -> Case {
             inputs[at].imports.push(imp);
         }
     }
+    // failing inputs BETWEEN an import and a re-import: a missing module, a module that does not
+    // compile, a module whose top level raises, and a module that imports a good (so far unloaded or
+    // loaded) module and then fails -- followed by another import of what was loaded before
+    if rng.chance(3, 4) {
+        let loaded_before: Vec<Import> = inputs[0].imports.iter().filter(|i| i.path.first() != Some(&STD)).cloned().collect();
+        let at = 1 + rng.below(inputs.len() as u64) as usize;     // position of the failing input (1..=k)
+        let mut bad = Module::default();
+        let kind = rng.below(5);
+        match kind {
+            0 => bad.imports.push(Import { path: vec![MISSING], form: Form::Module }),
+            1 => {
+                c.files.push((vec![120], Module { imports: Vec::new(), defs: vec![Def { name: 300, is_pub: true }], fault: 1 }));
+                bad.imports.push(Import { path: vec![120], form: Form::Alias(78) });
+            }
+            2 => {
+                c.files.push((vec![121], Module { imports: Vec::new(), defs: vec![Def { name: 302, is_pub: true }], fault: 2 }));
+                bad.imports.push(Import { path: vec![121], form: Form::Module });
+            }
+            3 => {
+                // a wrapper that imports good modules and then something missing: the good ones finish
+                // inside the failing input
+                let mut w = Module { imports: Vec::new(), defs: vec![Def { name: 304, is_pub: true }], fault: 0 };
+                for i in entry_imports.iter().take(2) {
+                    if i.path.first() != Some(&STD) {
+                        w.imports.push(Import { path: i.path.clone(), form: Form::Alias(77) });
+                    }
+                }
+                // one module nobody imported yet, when there is one at the root
+                if let Some((p, _)) = c.files.iter().find(|(p, m)| p.len() == 1 && m.fault == 0 && !entry_imports.iter().any(|i| i.path == **p)) {
+                    w.imports.push(Import { path: p.clone(), form: Form::Alias(76) });
+                }
+                w.imports.push(Import { path: vec![MISSING], form: Form::Module });
+                c.files.push((vec![122], w));
+                bad.imports.push(Import { path: vec![122], form: Form::Module });
+            }
+            _ => {
+                // good imports first, then the failing one, in ONE input
+                for i in entry_imports.iter().rev().take(2) {
+                    if i.path.first() != Some(&STD) {
+                        bad.imports.push(Import { path: i.path.clone(), form: Form::Alias(77) });
+                    }
+                }
+                bad.imports.push(Import { path: vec![MISSING], form: Form::Alias(78) });
+            }
+        }
+        let at = at.min(inputs.len());
+        inputs.insert(at, bad);
+        // ... and afterwards import again (same spelling, and as an alias) what was loaded before it
+        let mut again = Module::default();
+        for i in loaded_before.iter().take(2) {
+            again.imports.push(i.clone());
+            again.imports.push(Import { path: i.path.clone(), form: Form::Alias(75) });
+        }
+        if kind == 2 && rng.chance(1, 2) {
+            again.imports.push(Import { path: vec![121], form: Form::Alias(74) }); // the raising module once more
+        }
+        inputs.insert((at + 1).min(inputs.len()), again);
+    }
+    let k = inputs.len();
     // probes: every spelling of every definition that any input could name
     let mut all: BTreeSet<(usize, Sp)> = BTreeSet::new();
     for at in 0..k {
@@ -1463,8 +1573,9 @@ fn main() {
             for (n, c) in sessions.iter().enumerate() {
                 let o = observe_session(c, n);
                 let raw = format!(
-                    "inputs={};probes={}",
+                    "inputs={};bumps={};probes={}",
                     o.inputs.iter().map(|(code, tr)| format!("{}:{}", code, tr.join(","))).collect::<Vec<_>>().join("#"),
+                    o.bumps.iter().map(|v| v.join(",")).collect::<Vec<_>>().join("#"),
                     o.probes.iter().map(|v| v.join("|")).collect::<Vec<_>>().join(",")
                 );
                 println!("{}\t{}\t{}\t{}", coq_squery(c), coq_sobs(&o), text_of(c), raw);
